@@ -17,7 +17,7 @@ from .store import Row
 import aw_datastore.storages.sqlite as SQ
 
 PROP = "C06"
-EVENT_WRITES = ["insert_one", "insert_many_new", "insert_many_upsert", "insert_many_upsert_only", "replace", "replace_last", "delete_live", "delete_missing"]
+EVENT_WRITES = ["insert_one", "insert_many_new", "insert_many_120", "insert_many_upsert", "insert_many_upsert_only", "replace", "replace_last", "delete_live", "delete_missing"]
 EVENT_READS = ["get", "get_by_id", "get_eventcount"]
 BUCKET_OPS = ["create_bucket", "update_bucket", "delete_bucket"]
 FAILING_BUCKET_OPS = ["delete_missing_bucket", "create_duplicate_bucket", "update_missing_bucket"]
@@ -79,6 +79,29 @@ def h_step(x, op, lazy=True, na=2, flush_first=False):
                 conn.execute("INSERT INTO events(bucketrow, starttime, endtime, datastr) VALUES ((SELECT rowid FROM buckets WHERE id = 'B'), ?, ?, '{}')", [i, i])
             st.num_uncommitted_statements = n0
         # last flush at instant c, recorded the way commit() records it: datetime.now() (naive local time)
+        native_log = []
+        if not x.sym:
+            real_conn = st.conn
+
+            class LogConn:
+                def execute(self_, sql, *a):
+                    if sql.lstrip().split()[0].upper() in ("INSERT", "UPDATE", "DELETE"):
+                        native_log.append("w")
+                    return real_conn.execute(sql, *a)
+
+                def executemany(self_, sql, seq):
+                    native_log.append("w")
+                    return real_conn.executemany(sql, seq)
+
+                def commit(self_):
+                    native_log.append("c")
+                    return real_conn.commit()
+
+                def __getattr__(self_, name):
+                    return getattr(real_conn, name)
+
+            st.conn = LogConn()
+            conn = real_conn
         st.last_commit = ST.Clock(fixed=[x.dt_us(c * 1000)]) and S.SymDatetimeClass(ST.Clock(fixed=[x.dt_us(c * 1000)]), loff).now()
         clock.n = 0
         clock.calls = []
@@ -98,6 +121,11 @@ def h_step(x, op, lazy=True, na=2, flush_first=False):
             b.insert(ST.event_of_row(x, new[0]))
         elif op == "insert_many_new":
             b.insert([ST.event_of_row(x, new[0]), ST.event_of_row(x, new[1])])
+        elif op == "insert_many_120":
+            # one bulk insert larger than the batch size: concrete contents, 120 events
+            from datetime import timedelta as _td
+
+            b.insert([C.mk_event(x, (1600000000000 + 1000 * i) * 1000, 500000, {"tag": i % 3}, aligned=True) for i in range(120)])
         elif op == "insert_many_upsert":
             b.insert([C.mk_event(x, new[0].start, new[0].dur, {"tag": x.wrap(new[0].tag)}, id=x.wrap(A[0].id), aligned=False), ST.event_of_row(x, new[1])])
         elif op == "insert_many_upsert_only":
@@ -143,10 +171,12 @@ def h_step(x, op, lazy=True, na=2, flush_first=False):
             # statements of this call, and where commits fell among them
             writes = [i for i in conn.write_log if i > mark]
             commits = [i for i in conn.commit_points if i >= mark]
-            split = any(writes[0] < cp < writes[-1] for cp in commits) if writes else False
+            split = any(writes[0] <= cp < writes[-1] for cp in commits) if len(writes) > 1 else False
         else:
             w1 = pending_native(ds)
-            split = False
+            # natively: statements and commits as seen by a logging proxy around the real connection
+            ev_ = [k for k in native_log if k in ("w", "c")]
+            split = ("c" in ev_[ev_.index("w"): len(ev_) - 1 - ev_[::-1].index("w")]) if ev_.count("w") > 1 else False
         obl = []
         obs = [op, n1]
         if op in FAILING_BUCKET_OPS:
@@ -175,7 +205,7 @@ def h_step(x, op, lazy=True, na=2, flush_first=False):
                     obl.append(("recent-flush-low-counter-keeps-buffering", Implies(And(d1 + d2 < AGE_S * 10**6, n0 < LIMIT - 1), w1 == w0 + 1)))
             else:
                 obl.append(("eager-mode-durable-on-return", w1 == 0))
-            if op not in ("insert_many_new", "insert_many_upsert", "insert_many_upsert_only"):
+            if op not in ("insert_many_new", "insert_many_120", "insert_many_upsert", "insert_many_upsert_only"):
                 obl.append(("operation-not-split-by-a-commit", not split))
         return obl, obs
     finally:
